@@ -101,6 +101,7 @@ static std::pair<std::string, std::string> run_scn(const Scn &s) {
     bool cut_in_body = false; for (size_t cpos : s.cuts) if (cpos > s.body_at && cpos < s.body_at + s.body_len) cut_in_body = true;
     std::string attr = (t3 && (cut_in_body || s.multi_piece_framing)) ? "+T3" : "";
     // --mode c05 / c06: the same generated coded-body scenarios serve the lifecycle (C05) and accounting (C06) monitors of the driver
+    if (A.mode == "c01") return {"", ""}; // only sanitizer reports count
     if (A.mode == "c05" || A.mode == "c06") { std::string pre = A.mode == "c05" ? "C05:" : "C06:"; for (auto &v : r.violations) if (v.rfind(pre, 0) == 0) return {v, "stream monitor: " + v + " (coded body scenario " + s.label + ")"}; return {"", ""}; }
     if (!ob.bound_fail.empty()) return {"bomb_bound_exceeded:" + s.label, ob.bound_fail};
     if (s.mode == 2) return {"", ""};
